@@ -10,6 +10,10 @@
 //   seqfresh  same line, a fresh object for every call
 //   d.solve / d.seq / d.seqfresh : the same with double
 //   d.truth <kappa> <solver> <side> <pk> <prm16> A [d|B] f x0 -> "OK ..." | "FAIL ..." (long double recomputation)
+//   idrs.raw <n> <s>      -> the s*n draws of std::mt19937 / uniform_real_distribution(-1,1) the idrs constructor
+//                            makes (same statements, same OpenMP structure), as s vectors: explicit input of the model
+//   idrs.shadow <n> <s>   -> the private shadow space P of a constructed idrs<builtin<Q>> object (after the
+//                            constructor's Gram-Schmidt), as s vectors; trailing tokens are ignored
 // pk: id (amgcl-style dummy: copy), diag (vector d, vmul), mat (matrix B, spmv).
 // Inputs (matrix, rhs) are compared before/after every call: "INPUT-MODIFIED" replaces the payload.
 #include "vq_io.hpp"
@@ -250,5 +254,64 @@ static std::string d_truth(Tok &t) {
     return os.str();
 }
 static vq::Reg reg_dtruth("d.truth", d_truth);
+
+// ------------------------------------------------------------ IDR(s): the constructor's random shadow space
+// read-only access to the private member idrs::P (explicit instantiation may name private members)
+namespace rob {
+template <class Tag> struct Slot { static typename Tag::type ptr; };
+template <class Tag> typename Tag::type Slot<Tag>::ptr;
+template <class Tag, typename Tag::type p> struct Fill { Fill() { Slot<Tag>::ptr = p; } static Fill inst; };
+template <class Tag, typename Tag::type p> Fill<Tag, p> Fill<Tag, p>::inst;
+}
+typedef sv::idrs< be::builtin<Q> > IdrsQ;
+struct IdrsPTag { typedef std::vector< std::shared_ptr<IdrsQ::vector> > IdrsQ::*type; };
+template struct rob::Fill<IdrsPTag, &IdrsQ::P>;
+
+static std::string show_vecs(const std::vector< std::vector<Q> > &vs) {
+    std::ostringstream os;
+    for (size_t j = 0; j < vs.size(); ++j) { if (j) os << " "; os << show(vs[j]); }
+    return os.str();
+}
+
+// the statements of idrs.hpp:196-223 with the vectors kept raw (pid = inner_product.rank() = 0)
+static std::string idrs_raw(Tok &t) {
+    long n = t.i(), s = t.i();
+    typedef Q rhs_type; typedef Q scalar_type;
+    std::vector< std::vector<Q> > out;
+    std::vector<rhs_type> p(n);
+    int pid = 0;
+#pragma omp parallel
+    {
+#ifdef _OPENMP
+        int tid = omp_get_thread_num();
+        int nt = omp_get_max_threads();
+#else
+        int tid = 0;
+        int nt = 1;
+#endif
+        std::mt19937 rng(pid * nt + tid);
+        std::uniform_real_distribution<scalar_type> rnd(-1, 1);
+        for (long j = 0; j < s; ++j) {
+#pragma omp for
+            for (ptrdiff_t i = 0; i < static_cast<ptrdiff_t>(n); ++i)
+                p[i] = amgcl::math::constant<rhs_type>(rnd(rng));
+#pragma omp single
+            { out.push_back(p); }
+        }
+    }
+    return show_vecs(out);
+}
+static vq::Reg reg_idrs_raw("idrs.raw", idrs_raw);
+
+static std::string idrs_shadow(Tok &t) {
+    long n = t.i(), s = t.i();
+    Prm p; p.maxiter = 1; p.tol = Q(0); p.abstol = Q(0); p.ns = false; p.s = s; p.omega = Q(0); p.smoothing = false; p.replacement = false;
+    IdrsQ S(n, SP<Q>::idrs(p));
+    const std::vector< std::shared_ptr<IdrsQ::vector> > &P = S.*(rob::Slot<IdrsPTag>::ptr);
+    std::vector< std::vector<Q> > out;
+    for (size_t j = 0; j < P.size(); ++j) { std::vector<Q> v(n); for (long i = 0; i < n; ++i) v[i] = (*P[j])[i]; out.push_back(v); }
+    return show_vecs(out);
+}
+static vq::Reg reg_idrs_shadow("idrs.shadow", idrs_shadow);
 
 int main() { K<Q>::reg(""); K<double>::reg("d."); return vq::driver_main(); }
